@@ -381,6 +381,9 @@ func (g unionBuilderGenerator) EmitNodeAssemblerMethodAssignNode(w io.Writer) {
 			if v.Kind() != datamodel.Kind_Map {
 				return datamodel.ErrWrongKind{TypeName: "{{ .PkgName }}.{{ .Type.Name }}", MethodName: "AssignNode", AppropriateKind: datamodel.KindSet_JustMap, ActualKind: v.Kind()}
 			}
+			if _, err := na.BeginMap(v.Length()); err != nil {
+				return err
+			}
 			itr := v.MapIterator()
 			for !itr.Done() {
 				k, v, err := itr.Next()
